@@ -19,7 +19,7 @@ POOLS = {
     "tiny":    ["1e-150", "1e-160", "1e-170", "1e-300", "1e-323", "5e-324"],
     "mixed":   ["0.9", "0.5", "0.3", "0.25", "0.1", "1e-160", "5e-324"],
 }
-POOL_NAMES = ["dyadic", "decimal", "tie", "normalised", "mixed", "tiny", "ratio"]
+POOL_NAMES = ["dyadic", "decimal", "tie", "normalised", "mixed", "tiny", "ratio", "longtail"]
 
 ALPHA_CHARS = "abcxyz"
 SPECIAL_ALPHA = ["é", "ф", "α", "ñ", "ß", "ŉ", "ﬁ", "ǆ"]   # 1:1 case maps, plus letters whose upper() is 2 characters
@@ -40,6 +40,15 @@ def _descending_probs(t, pool, k):
         counts = menu[start:start + min(k, len(menu))]
         total = sum(counts) + t.choice([0, 0, 1, 3])
         return [repr(c / total) for c in counts]
+    if pool == "longtail":
+        # values seen once in 10^3 .. 10^8: products of a few of them land around and below the machine epsilon
+        # (2.2e-16), where an absolute tolerance in a comparison stops separating distinct probabilities
+        scale = t.choice(["e-03", "e-04", "e-05", "e-06", "e-08"])
+        digits = sorted({t.between(1, 9) for _ in range(k + 2)}, reverse=True)
+        out = ["%d%s" % (d, scale) for d in digits[:k]]
+        while len(out) < k:
+            out.append("1e-%d" % (12 + len(out)))
+        return out
     if pool == "normalised":
         counts = sorted({t.between(1, 12) for _ in range(k + 2)}, reverse=True)
         while len(counts) < k:
@@ -208,7 +217,7 @@ def gen_syn(t, allow_m=True, max_pts=600, hostile=False, force_m=False, omen=Non
         structs.append("".join(reps))
     if t.chance(1, 6) and structs:
         structs.append(structs[0])          # duplicate base structure line
-    probs_src = _descending_probs(t, base_probs_pool if base_probs_pool != "tiny" else "mixed", min(4, len(structs)))
+    probs_src = _descending_probs(t, {"tiny": "mixed", "longtail": "decimal"}.get(base_probs_pool, base_probs_pool), min(4, len(structs)))
     base = []
     for i, s in enumerate(structs):
         base.append([s, probs_src[min(i, len(probs_src) - 1)] if not t.chance(1, 5) else probs_src[t.draw(len(probs_src))]])
@@ -227,8 +236,11 @@ def gen_syn(t, allow_m=True, max_pts=600, hostile=False, force_m=False, omen=Non
         "omen_prob": None, "omen_keyspace": None,
     }
     if has_m or t.chance(1, 4):
-        lv = sorted({t.between(0, 4) for _ in range(t.between(1, 3))})
-        pp = _descending_probs(t, "dyadic" if pool == "tiny" else pool, len(lv))
+        # levels above 10 exist in trained rulesets (length level + initial level + transitions): with a synthetic
+        # model they are drawn too, so that budgets of more than 10 levels get spread over several transitions
+        hi = 18 if (omen is not None and t.chance(1, 3)) else 4
+        lv = sorted({t.between(0, hi) for _ in range(t.between(1, 3))})
+        pp = _descending_probs(t, "dyadic" if pool in ("tiny", "longtail") else pool, len(lv))
         if len(pp) >= 2 and t.chance(1, 6):
             pp[1] = pp[0]               # two Markov levels of exactly equal probability form one group
         spec["omen_prob"] = [[str(l), p] for l, p in zip(lv, pp)]
